@@ -8,7 +8,7 @@ EXPLANATION = (
     "the task is in exactly the group of its request; generated names have the documented form and are not live when generated."
 )
 ASSUMPTIONS = ["bounds: <= 4 requests, sizes {1,2,inf}"]
-BUDGET = {"quick": 120, "thorough": 1800}
+BUDGET = {"quick": 120, "thorough": 900}
 MON = ["C10"]
 
 
